@@ -430,7 +430,7 @@ def memo_rule(prog: Program, res, rule: str, scope, what: str) -> None:
         if not containers:
             continue
         stores = [x for x in walk_no_nested(fi.node) if isinstance(x, ast.Assign) and isinstance(x.targets[0], ast.Subscript) and isinstance(x.targets[0].value, ast.Name) and x.targets[0].value.id in containers]
-        stores += [x for x in walk_no_nested(fi.node) if isinstance(x, ast.Call) and isinstance(x.func, ast.Attribute) and x.func.attr == "setdefault" and isinstance(x.func.value, ast.Name) and x.func.value.id in containers]
+        stores += [x for x in walk_no_nested(fi.node) if isinstance(x, ast.Call) and isinstance(x.func, ast.Attribute) and x.func.attr in ("setdefault", "add", "append") and isinstance(x.func.value, ast.Name) and x.func.value.id in containers]
         if not stores:
             continue
         locals_ = {x.id for x in ast.walk(fi.node) if isinstance(x, ast.Name) and isinstance(x.ctx, ast.Store)}
@@ -453,6 +453,9 @@ def memo_rule(prog: Program, res, rule: str, scope, what: str) -> None:
                     if isinstance(x, ast.Call) and (dotted(x.func) or "") in ("getattr", "repr", "str", "id", "type") and x.args and not isinstance(x.args[0], ast.Constant):
                         partial.append(unparse(x)[:50])
                     elif isinstance(x, ast.Attribute) and isinstance(x.ctx, ast.Load) and x.attr in ("name", "__name__", "shape", "size") :
+                        partial.append(unparse(x)[:50])
+                    elif isinstance(x, ast.Attribute) and isinstance(x.ctx, ast.Load) and any(w in x.attr for w in ("path", "dir", "file", "id")):
+                        # where an object lives (a cache directory, a file name): the content there can be replaced
                         partial.append(unparse(x)[:50])
             if partial:
                 res.violation(
